@@ -99,7 +99,9 @@ class C01(core.Check):
                       ['A$=LEFT$("abc"+"defghijkl",0)', 'CLEAR', 'PRINT FRE("")'],
                       ['CHDIR "AB:X"'], ['FILES ":"'], ['OUT &H3C5,1'], ['OUT &H3CF,1'], ['PRINT &O1 2'],
                       ['SCREEN 1', 'VIEW (10,10)-(50,50)', 'SCREEN 1,,0,0'], ['KEY ON', 'LOCATE 1,60', 'WIDTH 40'],
-                      ['SCREEN 1', 'VIEW (100,100)-(200,150)', 'PRINT POINT(300,10)'], ['SCREEN 1', 'DRAW "C256 U5"']):
+                      ['SCREEN 1', 'VIEW (100,100)-(200,150)', 'PRINT POINT(300,10)'], ['SCREEN 1', 'DRAW "C256 U5"'],
+                      ['PRINT PEEK(4073)'], ['POKE 4073,1'], ['FOR I=3900 TO 4750:X=PEEK(I):POKE I,X:NEXT'],
+                      ['BSAVE "LOW.BIN",0,32767'], ['FOR X=1E38 TO 1.7E38 STEP 1E38:NEXT']):
             c.append({'k': 'prog', 'lines': lines, 'default': True})
         c.append({'k': 'file', 'bytes': [0xfe], 'name': 'X'})
         c.append({'k': 'file', 'bytes': [0xfe, 0x1a], 'name': 'X'})
@@ -158,6 +160,24 @@ class C01(core.Check):
         rng = self.rng
         return [rng.choice(self.GFX_HIST) for _ in range(rng.randrange(2, 8))]
 
+    def memwalk(self):
+        """PEEK and POKE-back over a stretch of addresses in one segment (region boundaries of the memory map: D01e), after a
+        little history that populates the regions (open file with FIELD, variables, arrays, a program line, a graphics mode)"""
+        rng = self.rng
+        pre = rng.sample(['OPEN "MW" FOR RANDOM AS 1 LEN=%d:FIELD #1,2 AS A$' % rng.choice([2, 32, 128]), 'DIM A(20):B$="xy"+"z"',
+                          'SCREEN %d' % rng.choice([0, 1, 2, 7, 9]), '10 REM walk', 'KEY ON', 'WIDTH 40', 'CLEAR ,%d' % rng.choice([2000, 8000, 30000])],
+                         rng.randrange(0, 4))
+        seg = rng.choice(['', '', '', '=0', '=&H40', '=&HB800', '=&HA000', '=&HB000', '=&HC000', '=&HF000', '=&HFFFF', '=%d' % rng.randrange(65536)])
+        a = rng.choice([rng.randrange(0, 65536), rng.randrange(0, 6000), rng.choice([0, 3800, 4000, 4500, 4700, 65000, 32500, 16000])])
+        n = rng.randrange(200, 700)
+        b = min(65535, a + n)
+        body = rng.choice(['X=PEEK(I%s)', 'X=PEEK(I%s):POKE I%s,X', 'POKE I%s,255-PEEK(I%s) AND 255']).replace('%s', '!')
+        lines = pre + ['DEF SEG%s' % seg, 'FOR I!=%d TO %d:%s:NEXT' % (a, b, body)]
+        if rng.random() < 0.3:
+            lines.append('BSAVE "MW.BIN",%d,%d' % (a, n))
+            lines.append('BLOAD "MW.BIN"')
+        return lines + ['DEF SEG', 'CLOSE']
+
     AFTER = ['CONT', 'RUN', 'LIST', 'PRINT ERR;ERL', 'RESUME', 'RESUME NEXT', 'EDIT 20', 'NEW', 'RENUM', 'GOTO 100', 'RETURN', 'STOP']
 
     def scenario(self):
@@ -188,6 +208,9 @@ class C01(core.Check):
                 out.append(rng.choice([{'k': 'he', 'e': e}, {'k': 'sio', 'err': rng.choice([57, 24, 25]), 'e': e},
                                        {'k': 'fs', 'dr': rng.randrange(2), 'con': rng.randrange(2), 'e': e}]))
                 hist['funnel'] += 1
+            elif r < 0.08:
+                out.append({'k': 'prog', 'lines': self.memwalk(), 'default': rng.random() < 0.5})
+                hist['memwalk'] = hist.get('memwalk', 0) + 1
             elif r < 0.2:
                 out.append({'k': 'prog', 'lines': self.scenario(), 'default': rng.random() < 0.5})
                 hist['scenario'] = hist.get('scenario', 0) + 1
